@@ -69,6 +69,12 @@ pub fn is_declarative_part(ctx: &mut ParsingContext<'_>) -> ParseResult<bool> {
 pub fn parse_declarative_part(
     ctx: &mut ParsingContext<'_>,
 ) -> ParseResult<Vec<WithTokenSpan<Declaration>>> {
+    ctx.nested(_parse_declarative_part)
+}
+
+fn _parse_declarative_part(
+    ctx: &mut ParsingContext<'_>,
+) -> ParseResult<Vec<WithTokenSpan<Declaration>>> {
     let mut declarations: Vec<WithTokenSpan<Declaration>> = Vec::new();
 
     fn is_recover_token(kind: Kind) -> bool {
